@@ -481,6 +481,7 @@ impl Ctx {
             counters.set(k, *v);
         }
         cov.set("observed", counters);
+        cov.set("log_statements_evaluated", crate::tracesub::EVENTS.load(Ordering::Relaxed));
         let mut samples = total.samples.clone();
         if samples.is_empty() {
             samples.push(Json::Str("(no sample recorded)".into()));
@@ -512,6 +513,7 @@ impl Ctx {
         ev.set("wall_s", self.start.elapsed().as_secs_f64());
         ev.set("violations", n_viol);
         ev.set("build", format!("{:?}", self.scale));
+
 
         if let Some(p) = evidence_path {
             if let Some(dir) = p.parent() {
